@@ -32,7 +32,7 @@ def gen_cases(rng, n, tier):
     # (b) histories on the real code with the tracker plugin: several flushes per transaction, inserts and deletes in
     # later flushes, delete + re-insert, columns moving to and from NULL
     cfgs = [c for c in B.all_cfgs('blog') + B.all_cfgs('comp')[::2] + B.all_cfgs('inh')[::2] if c['tracker'] and not c['null_delete']]
-    for c in B.gen_cases_default(rng, max(40, n // 6), tier, cfgs=[dict(c, twin=False) for c in cfgs]):
+    for c in B.gen_cases_default(rng, max(40, n // 6), tier, cfgs=[dict(c, twin=False, check_changesets=True) for c in cfgs]):
         out.append(dict(kind='H', cfg=c['cfg'], prog=c['prog']))
     for i in range(n):
         if i % 3 == 2:
